@@ -931,7 +931,7 @@ Short_words: Set[str] = constant_set(values=["a", "an", "the"], description="Sho
 Limit: int = constant_int(value=5, description="A limit.")
 
 
-@invariant(lambda self: self.weight > 0, "Weight must be positive.")
+@invariant(lambda self: self.weight > 0, "Weight must be positive: a weight of an item is a strictly positive number, and the unit of the weight is the gram.")
 class Item(DBC):
     """Represent an item."""
 
@@ -958,6 +958,7 @@ class Item(DBC):
 @invariant(lambda self: not (self.count is not None) or (self.count >= 1 and self.count <= 10), "Count range.")
 @invariant(lambda self: not self.flag or len(self.items) >= 1, "Flag needs items.")
 @invariant(lambda self: len(self.title) >= 1 and len(self.title) <= 10, "Title length.")
+@invariant(lambda self: self.flag or not self.flag, "The flag of the shelf is set, or it is not set, which is no exception to the rule; the description is long enough to be wrapped into several literals.")
 @serialization(with_model_type=True)
 class Shelf(DBC):
     """Represent a shelf."""
@@ -979,6 +980,13 @@ class Shelf(DBC):
         self.count = count
         self.blob = blob
 '''
+
+
+#: … and one the Java generator rejects (length of a set): TypeScript `.size`, C++ `.size()`
+ENUMERATED_MODEL_2 = ENUMERATED_MODEL.replace(
+    '@invariant(lambda self: len(self.title) >= 1 and len(self.title) <= 10, "Title length.")',
+    '@invariant(lambda self: len(self.title) >= 1 and len(self.title) <= 10, "Title length.")\n'
+    '@invariant(lambda self: len(Short_words) >= 3 or self.flag, "Three short words.")')
 
 
 def fixture_sources() -> List[Tuple[str, str]]:
@@ -1022,6 +1030,7 @@ def sources(ctx: Ctx) -> Iterator[Tuple[str, str, Any]]:
         if "model" in c:
             yield "corpus", c["model"], c.get("name", "corpus")
     yield "enumerated", ENUMERATED_MODEL, "enumerated"
+    yield "enumerated", ENUMERATED_MODEL_2, "enumerated-2"
     fx = fixture_sources()
     if ctx.tier == "quick" and not ctx.searching:
         fx = fx[:: 3]
